@@ -265,3 +265,18 @@ Definition in_groupb (g n : nat) (perm : list N) (mask : N) : bool :=
 Definition chk_below (g n : nat) (f c : list N) (elems : list (list N * N)) : bool :=
   let cn := bigN c in
   forallb (fun pm => implb (in_groupb g n (fst pm) (snd pm)) (cn <=? act_num n (fst pm) (snd pm) f)) elems.
+
+(* ---- C13 / C12: equality is semantic equality.
+   Exclusive cubes: two terms of 32 variables denote the same function exactly when they agree on the assignment zero
+   (the complement flag) and on the 32 assignments with a single variable set (the membership of that variable). *)
+Definition ecube_sem_eqb (a b : ecube) : bool :=
+  forallb (fun m => Bool.eqb (spec_ecube_value a m) (spec_ecube_value b m)) (0 :: map (fun v => 2 ^ v) vars32).
+Definition chk_ecube_eq (a b : ecube) (r : bool) : bool := Bool.eqb r (ecube_sem_eqb a b).
+(* Cubes (masks within 32 bits), without enumerating assignments: a cube is contradictory exactly when some variable is
+   in both masks; two cubes denote the same function exactly when both are contradictory, or neither is and they have
+   the same positive and the same negative literals. *)
+Definition cube_contradictory (c : cube) : bool := negb (N.land (cpos c) (cneg c) =? 0).
+Definition cube_sem_eqb (a b : cube) : bool :=
+  if cube_contradictory a then cube_contradictory b
+  else negb (cube_contradictory b) && ((cpos a =? cpos b) && (cneg a =? cneg b)).
+Definition chk_cube_eq (a b : cube) (r : bool) : bool := Bool.eqb r (cube_sem_eqb a b).
